@@ -4,7 +4,7 @@ PROP = dict(
     go='c04', n_quick=240, n_thorough=2400,
     coq_header=LC_HEADER,
     case_type='LC.case', verdict='C04.verdict',
-    rule='remove/rename/rebase/umount/umount -all on forests with prior mounts and synthetic process users anywhere in layer directories; non-trivial: users present or a prior mount step',
+    rule='remove/rename/rebase/umount/umount -all on forests with prior mounts and synthetic process users anywhere in layer directories, mounts (by hand or by import line) on hidden directories below a build root; non-trivial: users present or a prior mount step',
     explanation='per step Coq evaluates: model step = observed step (result class, operation log, file tree, kernel table, '
                 'layer states) from the observed world before it, and the C04 predicate on the observed worlds',
     assumptions=['in-process runs use a simulated kernel mount table (harness/simk = coq/Model/Kernel.v); the file tree is real',
